@@ -145,7 +145,7 @@ def _encode_contract(it, fv, args, kwargs):
     and the empty tuple is spelled ''."""
     parts = it.to_term(args[-1])
     it.assume(z3.Implies(S.py_len(parts) == 0, encode_abs(parts) == z3.StringVal("")))
-    it.assumed.append("contract:JSONPointer._encode(uninterpreted function of the tokens; string law bounded in C14)")
+    it.assumed.append("summary:JSONPointer._encode at call sites is an uninterpreted function of the tokens (its body is under JSONPointer._encode==pointer_text; injectivity and the round trip through _parse are lemmas/PointerText.lean, not known to the solver)")
     return Py.str(encode_abs(parts))
 
 
@@ -164,7 +164,7 @@ def _parse_contract(it, fv, args, kwargs):
     r = parse_abs(Py.s(s_), ue, ud)
     it.assume(Py.is_tuple(r))
     it.assume(z3.Implies(Py.s(s_) == z3.StringVal(""), r == S.mk_tuple([])))
-    it.assumed.append("contract:JSONPointer._parse(uninterpreted function of the text; string law bounded in C04/C14)")
+    it.assumed.append("summary:JSONPointer._parse at call sites is an uninterpreted function of the text and the decoding switches (its body without decoding is under JSONPointer._parse==parse_text; with decoding it is bounded in c04/c14)")
     return r
 
 
@@ -286,3 +286,111 @@ def _register_rel(marker, token_kind):
 for _tk in ("int", "str"):
     _register_rel(True, _tk)
     _register_rel(False, _tk)
+
+
+# ------------------------------------------------------------------ pointer text codec (C03 C04 C14 C20)
+# The bodies of _encode / _parse / __truediv__ are proved to be the compositions of str.replace /
+# split / join that lemmas/PointerText.lean is stated about (enc, dec, text, parse); the three library
+# functions are uninterpreted here, their algebra (parse(text ts) = ts, text(parse s) = s on valid
+# texts, '/' not in enc t) is proved there by induction.
+
+def _token_seq(ctx, name="parts"):
+    ps = ctx.seq(name)
+    return ps
+
+
+@contract("JSONPointer._encode==pointer_text", ("C04", "C14", "C03", "C20"), [P + "_encode"], replay=("encode_replay", [], "codec_candidates"))
+def _encode_body(ctx):
+    ps = _token_seq(ctx)
+    kind = ctx.bool("as_tuple")
+
+    def arg(it):
+        return z3.If(kind, Py.tuple(ps), Py.list(ps))
+
+    def elems(it):
+        # tokens as held by a pointer: ints or strings
+        i = z3.Int("i!enc")
+        it.assume(z3.ForAll([i], z3.Implies(z3.And(i >= 0, i < z3.Length(ps)), z3.Or(Py.is_int(ps[i]), Py.is_str(ps[i])))))
+
+    def code(it):
+        elems(it)
+        return it.run_function(method(ptr.JSONPointer, "_encode"), [arg(it)], {})
+
+    def spec(it):
+        elems(it)
+        return it.run_function(spec_fn(pspec, "pointer_text"), [arg(it)], {})
+
+    ctx.equiv("_encode", code, spec)
+
+
+index_abs = z3.Function("pointer_index_token", z3.StringSort(), Py)
+index_refuses = z3.Function("pointer_index_refuses", z3.StringSort(), z3.BoolSort())
+
+
+def _index_summary(it, fv, args, kwargs):
+    """Modular step: at the call sites inside _parse / __truediv__ (and inside the spec functions) the
+    token -> held-token map is the function that `JSONPointer._index==spec` proves equal to
+    specs.rfc6901.index_token; both sides use the same summary."""
+    s_ = lib.T(it, args[-1] if fv.qualname.endswith("_index") else args[0])
+    if not it.branch(Py.is_str(s_)):
+        raise lib.Unsupported("token that is not a str")
+    if it.branch(index_refuses(Py.s(s_))):
+        it.raise_(mod("jsonpath.exceptions").JSONPointerIndexError, "index out of range")
+    it.assumed.append("contract:JSONPointer._index==spec (proved separately; used as a summary at call sites)")
+    return index_abs(Py.s(s_))
+
+
+_INDEX_SUMMARY = {"jsonpath.pointer:JSONPointer._index": _index_summary, "specs.rfc6901:index_token": _index_summary}
+
+
+@contract("JSONPointer._parse==parse_text", ("C04", "C14", "C03", "C20"), [P + "_parse"], replay=("parse_replay", [], "codec_candidates"))
+def _parse_body(ctx):
+    s = ctx.str("s")
+    lo, hi = ptr.JSONPointer.min_int_index, ptr.JSONPointer.max_int_index
+
+    def code(it):
+        it.recursion_contract = _INDEX_SUMMARY
+        return it.to_term(it.run_function(method(ptr.JSONPointer, "_parse"), [pointer_obj(it), Py.str(s)], {"unicode_escape": S.FALSE, "uri_decode": S.FALSE}))
+
+    def spec(it):
+        it.recursion_contract = _INDEX_SUMMARY
+        return it.to_term(it.run_function(spec_fn(pspec, "parse_text"), [Py.str(s), S.mk_int(lo), S.mk_int(hi)], {}))
+
+    ctx.equiv("_parse", code, spec)
+
+
+uesc_abs = z3.Function("pointer_unicode_unescape", z3.StringSort(), z3.StringSort())
+uesc_refuses = z3.Function("pointer_unicode_unescape_refuses", z3.StringSort(), z3.BoolSort())
+
+
+def _uesc_summary(it, fv, args, kwargs):
+    s_ = lib.T(it, args[-1])
+    if it.branch(uesc_refuses(Py.s(s_))):
+        it.raise_(mod("jsonpath.exceptions").JSONPointerError, "invalid escape sequence")
+    it.assumed.append("contract:JSONPointer._unicode_escape(uninterpreted function of the text: codecs are outside the model; bounded in c04/c14)")
+    return Py.str(uesc_abs(Py.s(s_)))
+
+
+_TRUEDIV_SUMMARY = dict(_INDEX_SUMMARY)
+_TRUEDIV_SUMMARY["jsonpath.pointer:JSONPointer._unicode_escape"] = _uesc_summary
+_TRUEDIV_SUMMARY["specs.rfc6901:unicode_unescape"] = _uesc_summary
+
+
+@contract("JSONPointer.__truediv__==join_tokens", ("C14",), [P + "__truediv__", P + "__init__"], replay=("truediv_replay", [], "codec_candidates"))
+def _truediv_body(ctx):
+    a = ctx.seq("self_parts")
+    o = ctx.str("other")
+    lo, hi = ptr.JSONPointer.min_int_index, ptr.JSONPointer.max_int_index
+    # the other case (a text with a leading slash replaces the pointer) is the constructor: _parse contract
+    ctx.require(z3.Not(z3.PrefixOf(z3.StringVal("/"), uesc_abs(lib.str_lstrip(o)))))
+
+    def code(it):
+        it.recursion_contract = _TRUEDIV_SUMMARY
+        r = it.run_function(method(ptr.JSONPointer, "__truediv__"), [pointer_obj(it, Py.tuple(a)), Py.str(o)], {})
+        return it.to_term(it.getattr(r, "parts"))
+
+    def spec(it):
+        it.recursion_contract = _TRUEDIV_SUMMARY
+        return it.to_term(it.run_function(spec_fn(pspec, "truediv_parts"), [Py.tuple(a), Py.str(o), S.mk_int(lo), S.mk_int(hi)], {}))
+
+    ctx.equiv("__truediv__", code, spec)
